@@ -1805,12 +1805,16 @@ func (h *zzC07Harness) pick(v int) (g *zzC07Group, covering bool) {
 	return nil, false
 }
 
+// zzC07MaxBad ends the run early: with that many reproduced disagreements the
+// verdict is settled and every further one costs a fresh-object reproduction.
+const zzC07MaxBad = 300
+
 // worker runs walks until nothing is left to cover or the budget is used up.
 func (h *zzC07Harness) worker(wid int) {
 	cfg := &h.in.cfg
 	for {
 		h.mu.Lock()
-		if cfg.Budget > 0 && h.steps >= cfg.Budget {
+		if cfg.Budget > 0 && h.steps >= cfg.Budget || h.bad > zzC07MaxBad {
 			h.mu.Unlock()
 
 			return
@@ -1850,7 +1854,7 @@ func (h *zzC07Harness) oneWalk(id, init int) {
 	r.observe(false)
 	for n := 0; n < cfg.WalkLen; n++ {
 		h.mu.Lock()
-		if cfg.Budget > 0 && h.steps >= cfg.Budget {
+		if cfg.Budget > 0 && h.steps >= cfg.Budget || h.bad > zzC07MaxBad {
 			h.mu.Unlock()
 
 			break
@@ -2083,6 +2087,7 @@ func TestZZVerifC07Walk(t *testing.T) {
 		"kind": "summary", "walks": h.walks, "steps": h.steps, "queries": h.queries, "bad": h.bad,
 		"flaky": h.flaky, "discards": h.discards, "groups": len(in.groups), "covered": h.coveredN,
 		"transit": h.transit, "unobservable": h.unobservable, "by_act": h.actCov, "symptoms": h.sigCount,
+		"stopped_early": h.bad > zzC07MaxBad,
 	})
 }
 
